@@ -29,6 +29,15 @@ StepBad(e) ==
                                    \/ e.cap # Cap)
              \/ (e.op = "drop_buffer" /\ (SeqSet(dr) # SeqSet(oSeq) \/ ~NoDup(dr)))
              \/ (e.op # "drop_buffer" /\ dr # <<>>)
+             \* ArrayBuf reports its raw indices: the relation proved inductive for every capacity in
+             \* RingIdx.tla (Apalache) has to hold on the code, and `size` is the number of elements
+             \/ ("idx" \in DOMAIN e /\ LET x == e.idx
+                                            n == Len(CASE e.op = "push" -> Append(oSeq, e.v)
+                                                       [] e.op = "pop" /\ oSeq # <<>> -> Tail(oSeq)
+                                                       [] OTHER -> oSeq) IN
+                   \/ x.size # n \/ x.size < 0 \/ x.size > Cap
+                   \/ (Cap > 0 /\ (x.recv < 0 \/ x.recv >= Cap \/ x.send < 0 \/ x.send >= Cap))
+                   \/ (Cap > 0 /\ x.send # x.recv + x.size /\ x.send # x.recv + x.size - Cap))
       c18 == "alloc" \in DOMAIN e /\ e.alloc # 0
   IN (IF c19 THEN {"C19"} ELSE {}) \cup (IF c18 THEN {"C18"} ELSE {})
 
